@@ -8,6 +8,7 @@ mod common;
 mod blocks;
 mod conc;
 mod drip;
+mod graphs;
 mod ring;
 mod sched;
 mod sources;
@@ -20,6 +21,7 @@ fn main() {
         Some("ring") => ring::run(&args),
         Some("blocks") => blocks::run(&args),
         Some("sched") => sched::run(&args),
+        Some("graphs") => graphs::run(&args),
         Some("sources") => sources::run(&args),
         Some("conc") => conc::run(&args),
         Some("waits") => waits::run(&args),
